@@ -105,24 +105,17 @@ func (sess *UserSession) Move(w *imapserver.MoveWriter, numSet imap.NumSet, dest
 		destUIDs.AddNum(appendData.UID)
 		expunged[msg] = struct{}{}
 	})
-	seqNums := sess.mailbox.expungeLocked(expunged)
+	// The EXPUNGE responses are queued by expungeLocked for all sessions,
+	// including this one: they are sent right after this command, in order with
+	// any other pending update. Writing them here as well would report each
+	// message twice (and with a sequence number which is already stale).
+	sess.mailbox.expungeLocked(expunged)
 
-	err = w.WriteCopyData(&imap.CopyData{
+	return w.WriteCopyData(&imap.CopyData{
 		UIDValidity: dest.uidValidity,
 		SourceUIDs:  sourceUIDs,
 		DestUIDs:    destUIDs,
 	})
-	if err != nil {
-		return err
-	}
-
-	for _, seqNum := range seqNums {
-		if err := w.WriteExpunge(sess.mailbox.tracker.EncodeSeqNum(seqNum)); err != nil {
-			return err
-		}
-	}
-
-	return nil
 }
 
 func (sess *UserSession) Poll(w *imapserver.UpdateWriter, allowExpunge bool) error {
